@@ -247,15 +247,23 @@ void SolverNLHandlerImpl<Solver, PB, NLPB>::OnHeader(const NLHeader &h) {
   std::copy(h.ampl_options, h.ampl_options + num_options_, options_);
   if (after_header_) {
     solver_.notify_start_opts();
-    after_header_();
+    try {
+      after_header_();
+    } catch (...) {          // Option error: still size the problem
+      solver_.notify_end_opts();  // so that the .sol file reporting it
+      Base::OnHeader(h);     // has the dimensions of the NL header
+      throw;
+    }
   }
   solver_.notify_end_opts();
   /// Clarify objectives
   int objno = solver_.objno_specified();
-  if (objno > h.num_objs && solver_.is_objno_specified())
+  bool bad_objno =
+      objno > h.num_objs && solver_.is_objno_specified();
+  Base::OnHeader(h);         // before throwing, for .sol dimensions
+  if (bad_objno)
     throw InvalidOptionValue("objno", objno,
                              fmt::format("expected value between 0 and {}", h.num_objs));
-  Base::OnHeader(h);
 #ifndef MP_DATE
   CheckDemoVersion(h);
 #endif
